@@ -12,7 +12,7 @@ META = {
 def run(ctx):
     q = ctx.quick()
     plans = [
-        {"world": "focus_rounds", "cover": True, "steps": 5 if q else 7, "avoid": True, "crash": False},
+        {"world": "focus_rounds", "cover": True, "steps": 6 if q else 7, "avoid": True, "crash": False},
         {"world": "consumers", "sim": 6 if q else 40, "steps": 9 if q else 12, "avoid": True, "cap": 350 if q else 5000, "seeds": 1 if q else 3},
         {"world": "happy", "sim": 3 if q else 20, "steps": 8 if q else 10, "avoid": True, "cap": 150 if q else 3000, "seeds": 1 if q else 2},
     ]
